@@ -84,6 +84,7 @@ func runExpect(cfg Config) {
 			cases = append(cases, c)
 		}
 	}
+	nCorpus := len(cases)
 	for i := 0; i < cfg.N; i++ {
 		c := g.ExpectCase()
 		cases = append(cases, c)
@@ -93,9 +94,29 @@ func runExpect(cfg Config) {
 		cases[i].Op = "expect"
 	}
 	results := make([]string, len(cases))
+	// the corpus cases run one at a time, each announced first: a panic inside the tool's own
+	// goroutines cannot be recovered here and kills the process; the driver then runs the op again
+	// with that case marked, and it is reported as a crash of the tool
+	if len(crashedCases) > 0 {
+		// an earlier attempt died (while sessions ran in parallel, or at a case already marked):
+		// this time every session runs alone and is announced first
+		nCorpus = len(cases)
+	}
+	for i := 0; i < nCorpus; i++ {
+		mark(i)
+		if crashedCases[i] {
+			results[i] = "crash"
+			continue
+		}
+		results[i] = runOneExpect(dir, emitter, cases[i])
+	}
+	mark(-1)
 	sem := make(chan bool, 16)
 	var wg sync.WaitGroup
 	for i := range cases {
+		if i < nCorpus {
+			continue
+		}
 		wg.Add(1)
 		sem <- true
 		go func(i int) {
